@@ -21,6 +21,15 @@ pub struct DocCase {
     pub name_char: Option<(u32, bool)>,
 }
 
+/// characters that may NOT occur in a field name (indexed through DocCase::name_char values from BAD_BASE): the control
+/// characters and the blank, DEL, and non-ASCII characters of every width
+pub const BAD_BASE: u32 = 0x30_0000;
+pub fn bad_name_chars() -> Vec<char> {
+    let mut v: Vec<char> = (0u8..=32).map(|b| b as char).collect();
+    v.extend(['\u{7f}', '\u{e9}', '\u{a0}', '\u{20ac}', '\u{1f600}', '\u{85}', '\u{2028}']);
+    v
+}
+
 /// documents with one very long token (indexed through DocCase::name_char values from LONG_BASE, beyond Unicode)
 pub const LONG_BASE: u32 = 0x20_0000;
 pub const LONG_KINDS: usize = 6;
@@ -168,7 +177,7 @@ impl Prop for C03 {
         "exploration"
     }
     fn rule(&self, _t: Tier) -> String {
-        "documents are choice vectors over the layout slots of a PxF skeleton (P,F in 1..3): every vector with at most k deviations from the simplest layout is rendered (text + intended reading by construction) and read with the strict reader; vectors whose deviation has no effect on the text are skipped, so every evaluated document is distinct; rejection clause: every k<=1 document x every line position x (4 inserted junk lines - at the end also without a final newline -, the colon of a field line deleted, the indentation of a continuation line removed); long-token clause: a value line, a continuation line, a field name, a value of two-byte characters, a comment line and the blanks after a colon / in front of a continuation line stretched to 255 / 256 / 257 / 65535 / 65536 / 65537 characters must read as intended; field-name alphabet clause: every printable ASCII character except ':' inside a field name, and every one except '-' and '#' as its first character; non-trivial = document with at least one deviation".into()
+        "documents are choice vectors over the layout slots of a PxF skeleton (P,F in 1..3): every vector with at most k deviations from the simplest layout is rendered (text + intended reading by construction) and read with the strict reader; vectors whose deviation has no effect on the text are skipped, so every evaluated document is distinct; rejection clause: every k<=1 document x every line position x (4 inserted junk lines - at the end also without a final newline -, the colon of a field line deleted, the indentation of a continuation line removed); bad-name-character clause: a would-be field line whose name holds a control character, a blank, DEL or a non-ASCII character (inside, and where that is not a continuation or blank line, in front) makes the strict reader fail; long-token clause: a value line, a continuation line, a field name, a value of two-byte characters, a comment line and the blanks after a colon / in front of a continuation line stretched to 255 / 256 / 257 / 65535 / 65536 / 65537 characters must read as intended; field-name alphabet clause: every printable ASCII character except ':' inside a field name, and every one except '-' and '#' as its first character; non-trivial = document with at least one deviation".into()
     }
     fn bounds(&self, t: Tier) -> Value {
         let mut per = vec![];
@@ -193,6 +202,13 @@ impl Prop for C03 {
             let sk = Skel { paras: 1, fields: 1 };
             for i in 0..ZERO_PARA.len() {
                 f(&DocCase { skel: sk, v: vec![], junk: None, name_char: Some((i as u32, false)) });
+            }
+            // a would-be field line whose name holds a character that is not allowed there must make the strict reader fail
+            for (i, ch) in bad_name_chars().into_iter().enumerate() {
+                f(&DocCase { skel: sk, v: vec![], junk: None, name_char: Some((BAD_BASE + i as u32, false)) });
+                if !matches!(ch, ' ' | '\t' | '\n' | '\r') {
+                    f(&DocCase { skel: sk, v: vec![], junk: None, name_char: Some((BAD_BASE + i as u32, true)) });
+                }
             }
             // one token stretched to the limits of the narrow integer types, with its intended reading
             for idx in 0..(LONG_KINDS * crate::props::c01::WIDTH_LIMITS.len()) {
@@ -260,6 +276,25 @@ impl Prop for C03 {
                     Ok((d, p)) => vec![viol("no-paragraph", format!("text {:?}: Deb822::from_str reports {:?} paragraphs, Paragraph::from_str {:?} (expected 0 paragraphs and an error)", text, d.map_err(|e| e.to_string()), p.map_err(|e| e.to_string())))],
                     Err(p) => vec![viol("panic", panic_detail(&p))],
                 };
+            }
+        }
+        if let Some((cp, first)) = c.name_char {
+            if cp >= BAD_BASE {
+                let Some(ch) = bad_name_chars().get((cp - BAD_BASE) as usize).copied() else { return vec![] };
+                let line = if first { format!("{}x: v", ch) } else { format!("X{}y: v", ch) };
+                st.nontrivial += 1;
+                let mut out = vec![];
+                for text in [format!("A: b\n{}\n", line), format!("{}\nA: b\n", line), format!("A: b\n\n{}", line)] {
+                    match guard(budget_for(text.len()), || Deb822::from_str(&text).is_ok()) {
+                        Ok(false) => {}
+                        Ok(true) => out.push(viol("rejects-corrupted", format!("accepted {:?} (a field name cannot hold {:?})", text, ch))),
+                        Err(p) => out.push(viol("panic", panic_detail(&p))),
+                    }
+                }
+                if out.is_empty() {
+                    st.outcome("bad-name-character-rejected");
+                }
+                return out;
             }
         }
         if let Some((cp, _)) = c.name_char {
